@@ -42,6 +42,25 @@ if TYPE_CHECKING:
     from .connection import SSHServerConnection
 
 
+
+def _get_kex_mpint(packet: SSHPacket) -> int:
+    """Extract an integer from a key exchange message
+
+       The exchange hash is computed over the canonical encoding of these
+       values, not over the bytes received. Only accept the canonical
+       encoding, so that what was received is what gets hashed.
+
+    """
+
+    data = packet.get_string()
+    value = int.from_bytes(data, 'big', signed=True)
+
+    if MPInt(value)[4:] != data:
+        raise ProtocolError('Invalid integer encoding in key exchange')
+
+    return value
+
+
 class _ECDHKey(Protocol):
     """Protocol for performing Diffie-Hellman key exchange"""
 
@@ -163,7 +182,7 @@ class _KexDHBase(Kex):
         if not self._p:
             raise ProtocolError('Kex DH p not specified')
 
-        self._e = packet.get_mpint()
+        self._e = _get_kex_mpint(packet)
 
     def _parse_server_key(self, packet: SSHPacket) -> None:
         """Parse a DH server key"""
@@ -171,7 +190,7 @@ class _KexDHBase(Kex):
         if not self._p:
             raise ProtocolError('Kex DH p not specified')
 
-        self._f = packet.get_mpint()
+        self._f = _get_kex_mpint(packet)
 
     def _format_client_key(self) -> bytes:
         """Format a DH client key"""
@@ -383,8 +402,8 @@ class _KexDHGex(_KexDHBase):
         if self._p:
             raise ProtocolError('Kex DH group already sent')
 
-        p = packet.get_mpint()
-        g = packet.get_mpint()
+        p = _get_kex_mpint(packet)
+        g = _get_kex_mpint(packet)
         packet.check_end()
 
         self._init_group(g, p)
